@@ -16,6 +16,7 @@ partial def loop (ops : List (String × Handler)) (h : IO.FS.Stream) (out : IO.F
   let line ← h.getLine
   if line.isEmpty then return ()
   out.putStrLn (dispatch ops line)
+  out.flush   -- interactive use: a caller may thread state through consecutive replies
   loop ops h out
 
 def mainLoop (ops : List (String × Handler)) : IO Unit := do
